@@ -551,7 +551,15 @@ impl Ord for OrderedFloat64 {
 
 impl Hash for OrderedFloat64 {
     fn hash<H: Hasher>(&self, state: &mut H) {
-        self.0.to_bits().hash(state);
+        // Must agree with `eq`: all NaNs are equal, and -0.0 == 0.0.
+        let bits = if self.0.is_nan() {
+            f64::NAN.to_bits()
+        } else if self.0 == 0.0 {
+            0
+        } else {
+            self.0.to_bits()
+        };
+        bits.hash(state);
     }
 }
 
@@ -628,9 +636,10 @@ impl PartialEq for OrderableValue {
             (Self::String(a), Self::String(b)) => a == b,
             (Self::Bool(a), Self::Bool(b)) => a == b,
             (Self::Timestamp(a), Self::Timestamp(b)) => a == b,
-            // Cross-type numeric comparison
-            (Self::Int64(a), Self::Float64(b)) => (*a as f64) == b.0,
-            (Self::Float64(a), Self::Int64(b)) => a.0 == (*b as f64),
+            // Cross-type numeric comparison (exact, no lossy cast)
+            (Self::Int64(a), Self::Float64(b)) | (Self::Float64(b), Self::Int64(a)) => {
+                cmp_int_float(*a, b.0) == std::cmp::Ordering::Equal
+            }
             _ => false,
         }
     }
@@ -653,12 +662,29 @@ impl Ord for OrderableValue {
             (Self::Bool(a), Self::Bool(b)) => a.cmp(b),
             (Self::Timestamp(a), Self::Timestamp(b)) => a.cmp(b),
             // Cross-type numeric comparison
-            (Self::Int64(a), Self::Float64(b)) => OrderedFloat64(*a as f64).cmp(b),
-            (Self::Float64(a), Self::Int64(b)) => a.cmp(&OrderedFloat64(*b as f64)),
+            (Self::Int64(a), Self::Float64(b)) => cmp_int_float(*a, b.0),
+            (Self::Float64(a), Self::Int64(b)) => cmp_int_float(*b, a.0).reverse(),
             // Different types: order by type ordinal for consistency
             // Order: Bool < Int64 < Float64 < String < Timestamp
             _ => self.type_ordinal().cmp(&other.type_ordinal()),
         }
+    }
+}
+
+/// Compares an integer with a float exactly (`i as f64` rounds above 2^53).
+/// NaN is greater than every integer, matching [`OrderedFloat64`].
+fn cmp_int_float(i: i64, f: f64) -> std::cmp::Ordering {
+    use std::cmp::Ordering;
+    // -2^63 and 2^63 are exactly representable; every i64 lies in [-2^63, 2^63).
+    if f.is_nan() || f >= 9_223_372_036_854_775_808.0 {
+        Ordering::Less
+    } else if f < -9_223_372_036_854_775_808.0 {
+        Ordering::Greater
+    } else {
+        // The truncation is exact in this range; the dropped fraction breaks ties.
+        let t = f.trunc();
+        i.cmp(&(t as i64))
+            .then_with(|| 0.0_f64.partial_cmp(&(f - t)).unwrap_or(Ordering::Equal))
     }
 }
 
@@ -677,6 +703,14 @@ impl OrderableValue {
 
 impl Hash for OrderableValue {
     fn hash<H: Hasher>(&self, state: &mut H) {
+        // A float that equals an integer must hash like that integer (they compare equal).
+        if let Self::Float64(f) = self
+            && f.0 >= -9_223_372_036_854_775_808.0
+            && f.0 < 9_223_372_036_854_775_808.0
+            && f.0.trunc() == f.0
+        {
+            return Self::Int64(f.0 as i64).hash(state);
+        }
         std::mem::discriminant(self).hash(state);
         match self {
             Self::Int64(i) => i.hash(state),
